@@ -581,6 +581,9 @@ def symbolic_all_any(I, it, is_all):
     saved_pc = list(ctx.pc)
     ctx.assume(z3.And(0 <= j, j < n))
     try:
+        if not ctx.feasible():
+            # the sequence is empty on this path: all() of nothing is True, any() of nothing is False
+            return SV(Z.mk_bool(bool(is_all)), TBool())
         v = _pure_eval(I, fr, gen, seq, it.node.elt, j)
         t = ctx.truth(v)
         learned = ctx.pc[len(saved_pc) + 1 :]
